@@ -114,7 +114,8 @@ def cutKind (toks : List Tok) (k : Nat) : Option String :=
         else if isBinaryOp t.type then some "after-binop"
         else none
       else if t.type = .STRING && k + 1 = t.posAfter then some "in-string"      -- just before the closing quote
-      else if t.type = .BLOCKCOMMENT && t.posAfter - t.lit.length < k && k < t.posAfter then some "in-comment"
+      -- inside the comment: the opener `/*` is complete (after one byte the prefix is a lone `/`)
+      else if t.type = .BLOCKCOMMENT && t.posAfter - t.lit.length + 2 ≤ k && k < t.posAfter then some "in-comment"
       else go (before ++ [t]) rest'
   go [] toks
 
@@ -193,8 +194,6 @@ def runCase (prop : Prop') (inp obs : String) : CaseResult :=
       | some _ =>
         match kind with
         | some "in-string" => "unclosed-string-after-statement"
-        | some "in-comment" => "unclosed-block-comment-ending-in-star-slash"
-        | some "empty-parens" => "empty-lambda-parameter-list-at-end-of-line"
         | _ => ""
   { model := modelStr, agree := modelStr == obs, stmtModel := sm, stmtImpl := si,
     tags := (match fm.res with | some r => topTags r | none => ["panic"]) ++
